@@ -72,6 +72,16 @@ def config_inputs(cfg, N, seed):
     param = fields.grid(N)
     X, Y, Z = fields.mesh(param)
     kw = dict(CORE_KW)
+    if cfg == 'excised':
+        # the same exact solution with one grid point of the metric masked
+        # by NaN (an excised puncture): non-finite values then live in many
+        # derived arrays
+        inp, kw0, F, param = config_inputs('tensor', N, seed)
+        inp = {k: np.array(v, copy=True) for k, v in inp.items()}
+        c = N // 2
+        inp['gammadown3'][:, :, c, c, c] = np.nan
+        _INPUT_CACHE[key] = (inp, dict(kw0), F, param)
+        return _INPUT_CACHE[key]
     if cfg == 'tensor_other':
         # same exact solution, fluid-adapted tetrad (e0 = u is then the very
         # array cached as uup4)
